@@ -400,16 +400,18 @@ structure DefFile where
 deriving DecidableEq, Repr, Inhabited
 
 /-! ## reader -/
+/-- a coordinate: NUMBER or `*` -/
+def pCoord (cs : List Char) : Option (Option Txt × List Char) :=
+  match nextD sCoord cs with
+  | some (.tok .number x, r) => some (some x, r)
+  | some (.tok (.lit .Star) _, r) => some (none, r)
+  | _ => none
+
 /-- after `(`: two coordinates, an optional third number, `)` -/
 def pPoint (cs : List Char) : Option (TPoint × List Char) :=
-  let coord (cs : List Char) : Option (Option Txt × List Char) :=
-    match nextD sCoord cs with
-    | some (.tok .number x, r) => some (some x, r)
-    | some (.tok (.lit .Star) _, r) => some (none, r)
-    | _ => none
-  match coord cs with
+  match pCoord cs with
   | some (x, r) =>
-    match coord r with
+    match pCoord r with
     | some (y, r) =>
       match nextD sCoord3 r with
       | some (.tok (.lit .Rpar) _, r) => some (⟨x, y, none⟩, r)
@@ -486,26 +488,28 @@ def pSpOpts : Nat → List Char → Option (List (Bool × Txt) × List Char)
       | _ => none
     | _ => none
 
+/-- after TAPER / TAPERRULE id: `("STYLE" ID)? "("` -/
+def pStyle (cs : List Char) : Option (Option Txt × List Char) :=
+  match nextD sWireOpt2 cs with
+  | some (.tok (.lit .Lpar) _, r) => some (none, r)
+  | some (.tok (.lit .Style) _, r) =>
+    match pSeq [(sId, .id), (one .Lpar, .lit .Lpar)] r with
+    | some ([s, _], r) => some (some s, r)
+    | _ => none
+  | _ => none
+
 /-- `wire_opt` of a regular wire up to the `(` of the first point (consumed) -/
 def pWireOpt (cs : List Char) : Option (Taper × Option Txt × List Char) :=
-  let style (cs : List Char) : Option (Option Txt × List Char) :=   -- after TAPER / TAPERRULE id
-    match nextD sWireOpt2 cs with
-    | some (.tok (.lit .Lpar) _, r) => some (none, r)
-    | some (.tok (.lit .Style) _, r) =>
-      match pSeq [(sId, .id), (one .Lpar, .lit .Lpar)] r with
-      | some ([s, _], r) => some (some s, r)
-      | _ => none
-    | _ => none
   match nextD sWireOpt cs with
   | some (.tok (.lit .Lpar) _, r) => some (.none, none, r)
   | some (.tok (.lit .Style) _, r) =>
     match pSeq [(sId, .id), (one .Lpar, .lit .Lpar)] r with
     | some ([s, _], r) => some (.none, some s, r)
     | _ => none
-  | some (.tok (.lit .Taper) _, r) => (style r).map fun (s, r) => (.taper, s, r)
+  | some (.tok (.lit .Taper) _, r) => (pStyle r).map fun (s, r) => (.taper, s, r)
   | some (.tok (.lit .Taperrule) _, r) =>
     match expect sId .id r with
-    | some (t, r) => (style r).map fun (s, r) => (.rule t, s, r)
+    | some (t, r) => (pStyle r).map fun (s, r) => (.rule t, s, r)
     | none => none
   | _ => none
 
@@ -912,9 +916,10 @@ def sintOK (s : Txt) : Bool :=
   | c :: r => if c = '+' || c = '-' then intOK r else intOK s
   | [] => false
 
-def TPoint.ok (p : TPoint) : Bool :=
-  (match p.x with | some v => intOK v | none => true) && (match p.y with | some v => intOK v | none => true)
-  && (match p.ext with | some v => intOK v | none => true)
+def coordOK : Option Txt → Bool
+  | some v => intOK v
+  | none => true
+def TPoint.ok (p : TPoint) : Bool := coordOK p.x && coordOK p.y && coordOK p.ext
 def TDoStep.ok (d : TDoStep) : Bool := intOK d.nx && intOK d.ny && sintOK d.dx && sintOK d.dy
 def TItem.ok : TItem → Bool
   | .pt p => p.ok
@@ -954,5 +959,175 @@ def parseDefL (cs : List Char) : Option DefFile :=
   | none => none
 
 def parseDef (s : String) : Option DefFile := parseDefL s.toList
+
+/-! ## canonical printer: the token list of a tree, every token preceded by one blank -/
+abbrev K (k : Kw) : Txt := k.chars
+def enc (ts : List Txt) : List Char := ts.flatMap fun t => ' ' :: t
+
+def star : Txt := ['*']
+def TPoint.body (p : TPoint) : List Txt :=
+  p.x.getD star :: p.y.getD star :: ((match p.ext with | some e => [e] | none => []) ++ [K .Rpar])
+def TPoint.toks (p : TPoint) : List Txt := K .Lpar :: p.body
+def TDoStep.body (d : TDoStep) : List Txt := [d.nx, K .By, d.ny, K .Step, d.dx, d.dy]
+def TItem.toks : TItem → List Txt
+  | .pt p => p.toks
+  | .via v none => [v]
+  | .via v (some o) => [v, o]
+  | .arr v d => v :: K .Do :: d.body
+def Taper.toks : Taper → List Txt
+  | .none => []
+  | .taper => [K .Taper]
+  | .rule r => [K .Taperrule, r]
+def styleToks : Option Txt → List Txt
+  | some s => [K .Style, s]
+  | none => []
+def spoptToks (o : Bool × Txt) : List Txt := [K .Plus, K (if o.1 then .Shape else .Style), o.2]
+/-- a wire without the token that ends it -/
+def TWire.toks (sp : Bool) (w : TWire) : List Txt :=
+  if sp then w.layer :: w.width.getD [] :: (w.spopts.flatMap spoptToks ++ (w.start.toks ++ w.rest.flatMap TItem.toks))
+  else w.layer :: (w.taper.toks ++ (styleToks w.style ++ (w.start.toks ++ w.rest.flatMap TItem.toks)))
+def wiresToks (sp : Bool) : List TWire → List Txt
+  | [] => []
+  | [w] => w.toks sp
+  | w :: ws => w.toks sp ++ K .New :: wiresToks sp ws
+def NetPart.toks (sp : Bool) : NetPart → List Txt
+  | .pin a b => [K .Lpar, a, b, K .Rpar]
+  | .opt k v => [K .Plus, K k, v]
+  | .wiring k ws => K .Plus :: K k :: wiresToks sp ws
+def TNet.toks (sp : Bool) (n : TNet) : List Txt := K .Minus :: n.name :: (n.parts.flatMap (NetPart.toks sp) ++ [K .Semi])
+def TViaOpt.toks (o : TViaOpt) : List Txt := K .Plus :: K o.k :: o.args
+def TVia.toks (v : TVia) : List Txt := K .Minus :: v.name :: (v.opts.flatMap TViaOpt.toks ++ [K .Semi])
+def TComp.toks (c : TComp) : List Txt :=
+  K .Minus :: c.name :: c.kind :: K .Plus :: K .Placed :: (c.at_.toks ++ [c.orient, K .Semi])
+def PinOpt.toks : PinOpt → List Txt
+  | .word k v => [K .Plus, K k, v]
+  | .flag k => [K .Plus, K k]
+  | .layer l p q => K .Plus :: K .Layer :: l :: (p.toks ++ q.toks)
+  | .placed p o => K .Plus :: K .Placed :: (p.toks ++ [o])
+def TPin.toks (p : TPin) : List Txt := K .Minus :: p.name :: (p.opts.flatMap PinOpt.toks ++ [K .Semi])
+def NdOpt.toks : NdOpt → List Txt
+  | .hard => [K .Plus, K .Hardspacing]
+  | .layer l w s => [K .Plus, K .Layer, l, K .Width, w, K .Spacing, s]
+  | .via v => [K .Plus, K .Via, v]
+def propdefToks (p : Txt × Txt) : List Txt := [K .Componentpin, p.1, p.2, K .Semi]
+def nondefToks (d : Txt × List NdOpt) : List Txt := K .Minus :: d.1 :: (d.2.flatMap NdOpt.toks ++ [K .Semi])
+def pinpropToks (p : Txt × Txt × Txt) : List Txt := [K .Minus, K .Pin, p.1, K .Plus, K .Property, p.2.1, p.2.2, K .Semi]
+def sectToks (k : Kw) (n : Txt) (items : List Txt) : List Txt := K k :: n :: K .Semi :: (items ++ [K .End, K k])
+def DStmt.toks : DStmt → List Txt
+  | .units a b n => [K .Units, a, b, n, K .Semi]
+  | .diearea ps => K .Diearea :: (ps.flatMap TPoint.toks ++ [K .Semi])
+  | .row a b x y o d => K .Row :: a :: b :: x :: y :: o :: K .Do :: (d.body ++ [K .Semi])
+  | .tracks d s n st l => [K .Tracks, d, s, K .Do, n, K .Step, st, K .Layer, l, K .Semi]
+  | .propdef ps => K .Propertydefinitions :: (ps.flatMap propdefToks ++ [K .End, K .Propertydefinitions])
+  | .vias n vs => sectToks .Vias n (vs.flatMap TVia.toks)
+  | .nondef n ds => sectToks .Nondefaultrules n (ds.flatMap nondefToks)
+  | .comps n cs => sectToks .Components n (cs.flatMap TComp.toks)
+  | .pins n ps => sectToks .Pins n (ps.flatMap TPin.toks)
+  | .pinprop n ps => sectToks .Pinproperties n (ps.flatMap pinpropToks)
+  | .spnets n ns => sectToks .Specialnets n (ns.flatMap (TNet.toks true))
+  | .nets n ns => sectToks .Nets n (ns.flatMap (TNet.toks false))
+def FStmt.toks : FStmt → List Txt
+  | .version v => [K .Version, v, K .Semi]
+  | .dividerchar v => [K .Dividerchar, v, K .Semi]
+  | .busbitchars v => [K .Busbitchars, v, K .Semi]
+  | .design n ss => K .Design :: n :: K .Semi :: (ss.flatMap DStmt.toks ++ [K .End, K .Design])
+
+/-- head comment on its own line, then every token preceded by a blank, then a line end -/
+def printDefL (f : DefFile) : List Char :=
+  (match f.head with | some h => h ++ ['\n'] | none => []) ++ (enc (f.stmts.flatMap FStmt.toks) ++ ['\n'])
+
+def printDef (f : DefFile) : String := String.ofList (printDefL f)
+
+/-! ## which trees the printer can show (hypothesis of the round-trip theorem) -/
+/-- an `ID` token: no white space, not starting with `+` (not an ID) or `#` (a comment after the blank) -/
+def vId (t : Txt) : Bool :=
+  match t with
+  | [] => false
+  | c :: _ => c ≠ '+' && c ≠ '#' && t.all notWs
+/-- an `ID` where `(`, `NEW`, `;` are folded into it (after a point): the whole text must differ from them -/
+def vIdPt (t : Txt) : Bool := vId t && t ≠ K .Lpar && t ≠ K .New && t ≠ K .Semi
+def isOrient (t : Txt) : Bool :=
+  match t with
+  | [c] => isNWES c
+  | [f, c] => f = 'F' && isNWES c
+  | _ => false
+/-- a via name: additionally neither `DO` nor of the form of an orientation -/
+def vVia (t : Txt) : Bool := vIdPt t && t ≠ K .Do && !isOrient t
+/-- a NUMBER token that `int()` accepts -/
+def vNum (t : Txt) : Bool := intOK t
+def vSNum (t : Txt) : Bool := sintOK t
+/-- a STRING token without `"` or `\` inside -/
+def vStr (t : Txt) : Bool :=
+  match t with
+  | c :: r => c = '"' && r.getLast? = some '"' && r.dropLast.all fun x => x ≠ '"' && x ≠ '\\'
+  | [] => false
+def vXY (t : Txt) : Bool := t = ['X'] || t = ['Y']
+def vHead (t : Txt) : Bool :=
+  match t with
+  | c :: r => c = '#' && r.all notNl
+  | [] => false
+
+def vCoord (c : Option Txt) : Bool := coordOK c
+def TPoint.valid (p : TPoint) : Bool := vCoord p.x && vCoord p.y && vCoord p.ext
+def TDoStep.valid (d : TDoStep) : Bool := vNum d.nx && vNum d.ny && vSNum d.dx && vSNum d.dy
+def TItem.valid (sp : Bool) : TItem → Bool
+  | .pt p => p.valid
+  | .via v none => vVia v
+  | .via v (some o) => !sp && vVia v && isOrient o
+  | .arr v d => sp && vVia v && d.valid
+def TWire.valid (sp : Bool) (w : TWire) : Bool :=
+  vId w.layer && w.start.valid && !w.rest.isEmpty && w.rest.all (TItem.valid sp) &&
+  (if sp then (match w.width with | some x => vNum x | none => false) && w.spopts.all (fun o => vId o.2)
+      && w.taper = .none && w.style = none
+   else w.width = none && w.spopts.isEmpty && (match w.taper with | .rule r => vId r | _ => true)
+      && (match w.style with | some x => vId x | none => true))
+def NetPart.valid (sp : Bool) : NetPart → Bool
+  | .pin a b => vId a && vId b
+  | .opt k v => (k = .Use || k = .Nondefaultrule) && vId v
+  | .wiring k ws => (k = .Cover || k = .Fixed || k = .Routed || (!sp && k = .Noshield)) && !ws.isEmpty && ws.all (TWire.valid sp)
+/-- a `(` after routing points is read as a point: no pin directly after a wiring part -/
+def pinAfterWiring : List NetPart → Bool
+  | .wiring _ _ :: .pin _ _ :: _ => true
+  | _ :: r => pinAfterWiring r
+  | [] => false
+def TNet.valid (sp : Bool) (n : TNet) : Bool := vId n.name && n.parts.all (NetPart.valid sp) && !pinAfterWiring n.parts
+def TViaOpt.valid (o : TViaOpt) : Bool :=
+  match o.k with
+  | .Viarule | .Pattern => o.args.length = 1 && o.args.all vId
+  | .Layers => o.args.length = 3 && o.args.all vId
+  | .Enclosure => o.args.length = 4 && o.args.all vNum
+  | .Cutsize | .Cutspacing | .Rowcol => o.args.length = 2 && o.args.all vNum
+  | _ => false
+def TVia.valid (v : TVia) : Bool := vId v.name && v.opts.all TViaOpt.valid
+def TComp.valid (c : TComp) : Bool := vId c.name && vId c.kind && c.at_.valid && vIdPt c.orient
+def PinOpt.valid : PinOpt → Bool
+  | .word k v => (k = .Net || k = .Direction || k = .Use) && vId v
+  | .flag k => k = .Special || k = .Port
+  | .layer l p q => vId l && p.valid && q.valid
+  | .placed p o => p.valid && vIdPt o
+def TPin.valid (p : TPin) : Bool := vId p.name && p.opts.all PinOpt.valid
+def NdOpt.valid : NdOpt → Bool
+  | .hard => true
+  | .layer l w s => vId l && vNum w && vNum s
+  | .via v => vId v
+def DStmt.valid : DStmt → Bool
+  | .units a b n => vId a && vId b && vNum n
+  | .diearea ps => !ps.isEmpty && ps.all TPoint.valid
+  | .row a b x y o d => vId a && vId b && vNum x && vNum y && vId o && d.valid
+  | .tracks d s n st l => vXY d && vNum s && vNum n && vNum st && vId l
+  | .propdef ps => ps.all fun p => vId p.1 && vId p.2
+  | .vias n vs => vNum n && vs.all TVia.valid
+  | .nondef n ds => vNum n && !ds.isEmpty && ds.all fun d => vId d.1 && d.2.all NdOpt.valid
+  | .comps n cs => vNum n && cs.all TComp.valid
+  | .pins n ps => vNum n && ps.all TPin.valid
+  | .pinprop n ps => vNum n && ps.all fun p => vId p.1 && vId p.2.1 && vStr p.2.2
+  | .spnets n ns => vNum n && ns.all (TNet.valid true)
+  | .nets n ns => vNum n && ns.all (TNet.valid false)
+def FStmt.valid : FStmt → Bool
+  | .version v => vId v
+  | .dividerchar v => vStr v
+  | .busbitchars v => vStr v
+  | .design n ss => vId n && ss.all DStmt.valid
+def DefFile.valid (f : DefFile) : Bool := (match f.head with | some h => vHead h | none => true) && f.stmts.all FStmt.valid
 
 end KV.DefText
